@@ -6,6 +6,7 @@ package x509
 
 import (
 	"crypto/ecdsa"
+	"encoding/hex"
 	"encoding/json"
 	"errors"
 	"net"
@@ -634,6 +635,26 @@ func (g *GeneralSubtreeIP) MarshalJSON() ([]byte, error) {
 	return json.Marshal(&aux)
 }
 
+// parseIPWithHexMask parses the "address/hexmask" form of net.IPNet.String.
+func parseIPWithHexMask(s string) (net.IP, net.IPMask, bool) {
+	idx := strings.IndexByte(s, '/')
+	if idx < 0 {
+		return nil, nil, false
+	}
+	ip := net.ParseIP(s[:idx])
+	mask, err := hex.DecodeString(s[idx+1:])
+	if ip == nil || err != nil {
+		return nil, nil, false
+	}
+	if ip.To4() != nil && len(mask) == net.IPv4len {
+		return ip, mask, true
+	}
+	if ip.To4() == nil && len(mask) == net.IPv6len {
+		return ip, mask, true
+	}
+	return nil, nil, false
+}
+
 func (g *GeneralSubtreeIP) UnmarshalJSON(b []byte) error {
 	aux := auxGeneralSubtreeIP{}
 	if err := json.Unmarshal(b, &aux); err != nil {
@@ -641,7 +662,14 @@ func (g *GeneralSubtreeIP) UnmarshalJSON(b []byte) error {
 	}
 	ip, ipNet, err := net.ParseCIDR(aux.CIDR)
 	if err != nil {
-		return err
+		// A mask that is not a prefix is written by MarshalJSON (net.IPNet.String)
+		// as "address/hexmask", which net.ParseCIDR does not read.
+		var mask net.IPMask
+		var ok bool
+		if ip, mask, ok = parseIPWithHexMask(aux.CIDR); !ok {
+			return err
+		}
+		ipNet = &net.IPNet{IP: ip, Mask: mask}
 	}
 	g.Data.IP = ip
 	g.Data.Mask = ipNet.Mask
